@@ -88,7 +88,7 @@ variable {α : Type} [Add α] [Sub α] [Mul α] [Div α] [Neg α] [Zero α] [One
 /-- `ma /= sqrt(einsum('ij,ij->i', ma, ma))` on rows that `_parse_input` has already centred -/
 def unitRowRaw (P : Nat) (sqrt : α → α) (x : Row α) : Row α :=
   let nrm := sqrt (dotP P x x)
-  fun c => x c / nrm
+  fun c => Rsa.Gen.C01.corrUnit (x c) nrm
 
 /-- `calc_rdm_correlation` after `_parse_input(…, remove_mean=True)` -/
 def corrMatRaw (P : Nat) (sqrt : α → α) (M : List (Row α)) : List (List α) :=
